@@ -321,6 +321,61 @@ pub fn trand(g: &mut Gen, r: &mut Rng, cfg: &TRandCfg) {
 }
 
 // ------------------------------------------------------------------------------------------------
+// T-wide: pages with hundreds of nodes (skewed level distribution), re-upserts and overwrites
+// ------------------------------------------------------------------------------------------------
+
+pub fn twide(g: &mut Gen, r: &mut Rng, cases: usize, max_keys: usize) {
+    for case in 0..cases {
+        let mut r = r.fork(case as u64);
+        set_val_pos(r.below(3) as u8);
+        let n = 3usize;
+        let base = 16u8;
+        let nk = 260 + r.below(max_keys as u64 - 259) as usize;
+        // one key in `every` sits on level 1 (or 2): the pages between them are wide
+        let every = [0usize, 300, 97][r.below(3) as usize];
+        let keys: Vec<Vec<u8>> = (0..nk).map(|i| (i as u16).to_be_bytes().to_vec()).collect();
+        let kds: Vec<Vec<u8>> = (0..nk)
+            .map(|i| {
+                let l = if every > 0 && i % every == every - 1 { 1 + (i / every % 2) as u32 } else { 0 };
+                digest_for_level(l, base, n, (i as u8).wrapping_mul(2))
+            })
+            .collect();
+        g.op(format!("new 0 {base} n={n}"));
+        g.cases += 1;
+        let mut order: Vec<usize> = (0..nk).collect();
+        match r.below(3) {
+            0 => {}
+            1 => order.reverse(),
+            _ => r.shuffle(&mut order),
+        }
+        for (step, &i) in order.iter().enumerate() {
+            g.op(format!("ups 0 {} {} {}", xtok(&keys[i]), xtok(&kds[i]), xtok(&val_digest(1, n))));
+            if step % 97 == 96 {
+                g.op("hash 0".into());
+            }
+        }
+        g.op("hash 0".into());
+        // re-upserts with the same and with a new value, everywhere in the wide pages
+        for _ in 0..24 {
+            let i = r.below(nk as u64) as usize;
+            let v = 1 + r.below(2) as u8;
+            g.op(format!("ups 0 {} {} {}", xtok(&keys[i]), xtok(&kds[i]), xtok(&val_digest(v, n))));
+            if r.chance(1, 4) {
+                g.op("hash 0".into());
+            }
+        }
+        g.op("hash 0".into());
+        let tr = g.op("trav 0 -".into());
+        g.shape(&tr);
+        g.op("ser 0".into());
+        g.op("iter 0".into());
+        if case < 2 {
+            g.sample(format!("twide case {case}: {nk} keys, a higher-level key every {every}"));
+        }
+    }
+}
+
+// ------------------------------------------------------------------------------------------------
 // V-small: every tree over U keys (every subset, every level assignment) x EVERY stop index
 // ------------------------------------------------------------------------------------------------
 
@@ -791,15 +846,39 @@ pub fn srand(g: &mut Gen, r: &mut Rng, cases: usize, max_ops: usize) {
         let join = nrep > 2 || r.chance(1, 2);
         let m = if join { "join" } else { "peer" };
         let n = 2usize;
-        let base = 16u8;
+        let base = [16u8, 16, 4, 2, 3][r.below(5) as usize];
         let nk = 2 + r.below(14) as usize;
         let kds: Vec<Vec<u8>> = (0..nk).map(|i| digest_for_level(geometric_level(&mut r, 4), base, n, i as u8 * 2)).collect();
-        for i in 0..nrep {
-            g.op(format!("rnew {i} {base} n={n}"));
+        let forked = r.chance(1, 3);
+        let mut written: BTreeMap<Vec<u8>, Vec<u8>> = BTreeMap::new();
+        if forked {
+            // replicas bootstrapped by cloning a seed replica that already holds data and hashes
+            g.op(format!("rnew 0 {base} n={n}"));
+            for i in 0..(1 + r.below(nk as u64) as usize) {
+                let v = vec![1 + r.below(3) as u8, 0xa0];
+                let key = vec![0x30 + i as u8];
+                g.op(format!("rwrite 0 {} {} {} {m}", xtok(&key), xtok(&kds[i]), xtok(&v)));
+                if join {
+                    let e = written.entry(key).or_insert_with(|| v.clone());
+                    if *e < v {
+                        *e = v;
+                    }
+                }
+            }
+            if r.chance(1, 2) {
+                g.op("rhash 0".into());
+            }
+            for i in 1..nrep {
+                g.op(format!("rclone {i} 0"));
+            }
+            g.note("forked-replicas");
+        } else {
+            for i in 0..nrep {
+                g.op(format!("rnew {i} {base} n={n}"));
+            }
         }
         g.cases += 1;
         g.note(&format!("replicas:{nrep}:{m}"));
-        let mut written: BTreeMap<Vec<u8>, Vec<u8>> = BTreeMap::new();
         let nops = r.below(max_ops as u64 + 1);
         for _ in 0..nops {
             if r.chance(3, 5) {
@@ -827,90 +906,79 @@ pub fn srand(g: &mut Gen, r: &mut Rng, cases: usize, max_ops: usize) {
                 g.op(format!("rhash {h}"));
             }
         }
-        // writes stop. C05 (2 replicas): rounds until quiescence, bounded by the disagreeing keys
+        // writes stop: the fair quiescent phase (2 replicas: as many two-way rounds as disagreeing
+        // keys; more: sweeps over all ordered pairs until nothing changes) is ONE op executed by both
+        // sides, so that any (minimised) script ending in it is still a valid test of C05/C06
         let all: Vec<u64> = (0..nrep).collect();
-        if nrep == 2 {
-            let (a, b) = (store_of(g, 0), store_of(g, 1));
-            let keys: BTreeSet<_> = a.keys().chain(b.keys()).cloned().collect();
-            let dis = keys.iter().filter(|k| a.get(*k) != b.get(*k)).count();
-            let mut rounds = 0;
-            loop {
-                let (a0, b0) = (store_of(g, 0), store_of(g, 1));
-                if a0 == b0 {
-                    break;
-                }
-                rounds += 1;
-                g.op(format!("rpull 1 0 {m}"));
-                g.op(format!("rpull 0 1 {m}"));
-                let (a1, b1) = (store_of(g, 0), store_of(g, 1));
-                if a1 == a0 && b1 == b0 {
-                    g.exec.fails.push(OracleFail { prop: "C05", line_no: g.exec.line_no, msg: "replicas differ but a two-way round changed neither".into() });
-                    break;
-                }
-                if rounds > dis {
-                    g.exec.fails.push(OracleFail { prop: "C05", line_no: g.exec.line_no, msg: format!("not converged after {rounds} rounds with {dis} disagreeing keys") });
-                    break;
-                }
-            }
-            g.note(&format!("rounds:{rounds}"));
-            if join {
-                let (a, _) = (store_of(g, 0), ());
-                let mut want = BTreeMap::new();
-                for s in [&a0_join(&written)] {
-                    want = s.clone();
-                }
-                if a != want {
-                    g.exec.fails.push(OracleFail { prop: "C05", line_no: g.exec.line_no, msg: "common content is not the join of everything written".into() });
-                }
-            }
-        } else {
-            // C06: fair quiescent phase: sweeps over all ordered pairs in random order
-            let mut sweeps = 0;
-            loop {
-                let before: Vec<_> = all.iter().map(|i| store_of(g, *i)).collect();
-                let mut pairs: Vec<(u64, u64)> = vec![];
-                for i in 0..nrep {
-                    for j in 0..nrep {
-                        if i != j {
-                            pairs.push((i, j));
-                        }
-                    }
-                }
-                r.shuffle(&mut pairs);
-                for (i, j) in pairs {
-                    g.op(format!("rpull {i} {j} {m}"));
-                }
-                sweeps += 1;
-                let after: Vec<_> = all.iter().map(|i| store_of(g, *i)).collect();
-                if after == before {
-                    break;
-                }
-                if sweeps > nrep as usize * (nops as usize + 1) + 1 {
-                    g.exec.fails.push(OracleFail { prop: "C06", line_no: g.exec.line_no, msg: format!("no quiescence after {sweeps} fair sweeps") });
-                    break;
-                }
-            }
-            g.note(&format!("sweeps:{sweeps}"));
-        }
+        g.op(format!("rsettle {m}"));
         let roots: Vec<String> = all.iter().map(|i| g.op(format!("rhash {i}"))).collect();
         g.op("rtrav 0".into());
-        if roots.windows(2).any(|w| w[0] != w[1]) {
-            let p = if nrep == 2 { "C05" } else { "C06" };
-            g.exec.fails.push(OracleFail { prop: p, line_no: g.exec.line_no, msg: "replicas report different root hashes after the quiescent phase".into() });
-        }
-        if join {
-            for i in &all {
-                if store_of(g, *i) != written {
-                    g.exec.fails.push(OracleFail { prop: "C06", line_no: g.exec.line_no, msg: format!("replica {i} does not hold the join of everything written (lost or extra data)") });
-                    break;
-                }
-            }
-        }
         if case < 2 {
             g.sample(format!("srand case {case}: {nrep} replicas, merge {m}, {nk} keys, {nops} ops"));
         }
         g.shapes.insert(fnv(&roots.join(",")) ^ case as u64);
     }
+}
+
+/// S-small: EVERY schedule of a given depth over 2 replicas / 2 keys / 2 values and the op alphabet
+/// {write(r,k,v), pull(i<-j), hash(r)}, for every level assignment of the two keys, followed by two
+/// quiescent rounds; both merge rules.
+pub fn ssmall(g: &mut Gen, depth: usize, shard: usize, nshards: usize) {
+    let n = 2usize;
+    let base = 16u8;
+    let mut alphabet: Vec<String> = vec![];
+    for r in 0..2 {
+        for k in 0..2 {
+            for v in 1..=2u8 {
+                alphabet.push(format!("W {r} {k} {v}"));
+            }
+        }
+    }
+    alphabet.push("P 0 1".into());
+    alphabet.push("P 1 0".into());
+    alphabet.push("H 0".into());
+    alphabet.push("H 1".into());
+    let total = alphabet.len().pow(depth as u32);
+    let mut idx = 0usize;
+    for lv in 0..9u32 {
+        let kds = [digest_for_level(lv % 3, base, n, 0), digest_for_level(lv / 3, base, n, 2)];
+        for m in ["join", "peer"] {
+            for code in 0..total {
+                idx += 1;
+                if idx % nshards != shard {
+                    continue;
+                }
+                g.op(format!("rnew 0 {base} n={n}"));
+                g.op(format!("rnew 1 {base} n={n}"));
+                g.cases += 1;
+                let mut c = code;
+                let mut sched = vec![];
+                for _ in 0..depth {
+                    sched.push(alphabet[c % alphabet.len()].clone());
+                    c /= alphabet.len();
+                }
+                for op in &sched {
+                    let t: Vec<&str> = op.split(' ').collect();
+                    match t[0] {
+                        "W" => {
+                            let k: usize = t[2].parse().unwrap();
+                            let v: u8 = t[3].parse().unwrap();
+                            g.op(format!("rwrite {} {} {} {} {m}", t[1], xtok(&[0x40 + k as u8]), xtok(&kds[k]), xtok(&[v, 0xa0])));
+                        }
+                        "P" => {
+                            g.op(format!("rpull {} {} {m}", t[1], t[2]));
+                        }
+                        _ => {
+                            g.op(format!("rhash {}", t[1]));
+                        }
+                    }
+                }
+                g.op(format!("rsettle {m}"));
+                g.shapes.insert(fnv(&format!("{lv}{m}{sched:?}")));
+            }
+        }
+    }
+    g.sample(format!("ssmall: every schedule of depth {depth} over {} ops x 9 level assignments x 2 merges", alphabet.len()));
 }
 
 fn a0_join(w: &BTreeMap<Vec<u8>, Vec<u8>>) -> BTreeMap<Vec<u8>, Vec<u8>> {
@@ -944,6 +1012,15 @@ pub fn tcfg(g: &mut Gen, r: &mut Rng, bases: &[u8], widths: &[usize], per_cfg_ke
                 }
             }
         }
+    }
+    // the whole level table: every byte value as the first non-zero byte, after 0 and 1 zero bytes
+    for &base in bases {
+        for b in 1..=255u8 {
+            g.op(format!("lvl {} {base}", xtok(&[b, 7])));
+            g.op(format!("lvl {} {base}", xtok(&[0, b, 7])));
+            g.cases += 2;
+        }
+        g.op(format!("lvl {} {base}", xtok(&[0, 0, 0])));
     }
     // SipHash tie: lengths around the 8-byte block boundaries, seeded and zero keys
     for len in 0..40usize {
@@ -993,19 +1070,34 @@ pub fn tcfg(g: &mut Gen, r: &mut Rng, bases: &[u8], widths: &[usize], per_cfg_ke
             g.shape(&tr);
             g.op("ser 0".into());
             g.op("iter 0".into());
+            // a clone is interchangeable with its original: continue both with the same upserts
+            g.op("clone 5 0".into());
+            for i in 0..4 {
+                let key = vec![0xf0, i as u8];
+                let mut kd: Vec<u8> = (0..n).map(|_| r.below(256) as u8).collect();
+                kd[0] = [base, base.wrapping_mul(2), 0, 1][i % 4];
+                let vd: Vec<u8> = (0..n).map(|_| r.below(256) as u8).collect();
+                for t in [0, 2, 5] {
+                    g.op(format!("ups {t} {} {} {}", xtok(&key), xtok(&kd), xtok(&vd)));
+                }
+                if dep {
+                    g.op(format!("ups 1 {} {} {}", xtok(&key), xtok(&kd), xtok(&vd)));
+                }
+            }
+            g.op("hash 0".into());
+            g.op("hash 5".into());
+            g.op("trav 5 -".into());
+            g.op("diff2 0 5".into());
+            g.op("same 0 5".into());
             g.op("hash 2".into());
             g.op("trav 2 -".into());
-            let d2 = g.op("diff2 0 2".into());
-            if d2 != "[] | []" {
-                g.exec.fails.push(OracleFail { prop: "C18", line_no: g.exec.line_no, msg: "builder call order (hasher/base) changes the tree".into() });
-            }
+            g.op("diff2 0 2".into());
+            g.op("same 0 2".into());
             if dep {
                 g.op("hash 1".into());
                 g.op("ser 1".into());
-                let d = g.op("diff2 0 1".into());
-                if d != "[] | []" {
-                    g.exec.fails.push(OracleFail { prop: "C18", line_no: g.exec.line_no, msg: "builder and deprecated constructor trees differ".into() });
-                }
+                g.op("diff2 0 1".into());
+                g.op("same 0 1".into());
             }
         }
     }
@@ -1052,14 +1144,10 @@ pub fn tcfg(g: &mut Gen, r: &mut Rng, bases: &[u8], widths: &[usize], per_cfg_ke
                 let tr = g.op("trav 0 -".into());
                 g.shape(&tr);
                 g.op("iter 0".into());
-                if roots.windows(2).any(|w| w[0] != w[1]) {
-                    g.exec.fails.push(OracleFail { prop: "C18", line_no: g.exec.line_no, msg: format!("constructors {ctors:?} disagree on the root hash") });
-                }
+                let _ = roots;
                 for ti in 1..ctors.len() {
-                    let d = g.op(format!("diff2 0 {ti}"));
-                    if d != "[] | []" {
-                        g.exec.fails.push(OracleFail { prop: "C18", line_no: g.exec.line_no, msg: "trees from different constructors diff non-empty".into() });
-                    }
+                    g.op(format!("diff2 0 {ti}"));
+                    g.op(format!("same 0 {ti}"));
                 }
             }
         }
